@@ -522,6 +522,27 @@ func work(a lib.Args) {
 			items = append(items, genRelay(rng.Fork(), n, real))
 			n++
 		}
+		// stateful session histories: a small pool of bearers (long-lived, expiring, not yet valid, issued in the
+		// future, without booking id, one damaged) presented again and again on one API instance while the clock
+		// moves and an admin denies / allows the bookings in between; exact repeats included
+		w := acc.Weights{Session: 8, Deny: 3, Allow: 2, ListDeny: 0, ListAllow: 1, Status: 0, Clock: 5, Repeat: 4}
+		for i := 0; i < a.Pick(60, 1500); i++ {
+			r := rng.Fork()
+			e := mocks[r.Bool()]
+			now := int64(1600000000 + r.Intn(200000000))
+			c, _ := acc.GenHistory(r, e, "c01-"+strconv.Itoa(n), now, w, r.Range(6, 10), false)
+			items = append(items, Item{Kind: "history", H: &c})
+			n++
+		}
+		for _, ae := range []bool{false, true} {
+			r := rng.Fork()
+			now := int64(1600000000 + r.Intn(200000000))
+			for _, c := range acc.IdempotenceScripts(mocks[ae], "c01-"+strconv.Itoa(n), now, false) {
+				c := c
+				items = append(items, Item{Kind: "history", H: &c})
+			}
+			n++
+		}
 		for i := 0; i < a.Pick(500, 20000); i++ {
 			items = append(items, Item{Kind: "path", Path: genPath(rng.Fork())})
 		}
@@ -548,6 +569,27 @@ func work(a lib.Args) {
 			}
 		}
 		rn.Run(it.H)
+	}
+	for i := range items {
+		it := &items[i]
+		if it.Kind != "history" {
+			continue
+		}
+		e := mocks[it.H.Cfg.AE]
+		e.ResetStores()
+		acc.Progress(a.Out, it)
+		rn := acc.NewRunner(e, it.H.Name)
+		rn.StopOnHang = true
+		rn.Run(it.H)
+		if rn.Hung {
+			mocks[it.H.Cfg.AE] = acc.StartMockAPI(it.H.Cfg.AE)
+			for j := i + 1; j < len(items); j++ {
+				if items[j].Kind == "history" && items[j].H.Cfg.AE == it.H.Cfg.AE {
+					items[j].H.Rebase(mocks[it.H.Cfg.AE])
+					items[j].H.Cfg = mocks[it.H.Cfg.AE].Cfg
+				}
+			}
+		}
 	}
 	// relay stream: wall clock, several cases at a time
 	acc.UseWallClock(true)
@@ -614,6 +656,40 @@ func work(a lib.Args) {
 				res.Count("session-booking:denied")
 			}
 			res.Count(fmt.Sprintf("session-allow_no_booking_id:%v", it.H.Cfg.AE))
+		case "history":
+			for _, f := range acc.JudgeHistory(*it.H) {
+				clause := ""
+				switch {
+				case f.Clause == "success-for-invalid" && f.Route == "session":
+					clause = "code-for-bad-token"
+				case f.Clause == "answered":
+					clause = "answered"
+				}
+				if clause == "" {
+					continue
+				}
+				hist := it
+				hc := *it.H
+				hc.Ops, hc.Outs = hc.Ops[:f.Op+1], hc.Outs[:f.Op+1]
+				hist.H = &hc
+				p := f.Part
+				if i := strings.Index(p, "/"); i > 0 {
+					p = p[:i]
+				}
+				res.Violate(lib.Violation{Clause: clause, Case: kept, Key: clause + ":history/" + p, Replay: hist,
+					Detail: fmt.Sprintf("history %s (%d operations so far): %s", it.H.Name, f.Op+1, f.Detail)})
+			}
+			for k, o := range it.H.Ops {
+				if o.Req != nil && k < len(it.H.Outs) {
+					res.Count("hist-step:" + o.Req.Route + "=" + strconv.Itoa(it.H.Outs[k].Status))
+					if o.Req.Route == "session" {
+						res.Count("hist-bearer:" + o.Req.Auth.Label)
+					}
+					if o.Req.Label == "step-repeat" {
+						res.Count("hist-step:exact-repeat")
+					}
+				}
+			}
 		case "relay":
 			oracleRelay(it, kept, res)
 			for i, o := range it.H.Ops {
